@@ -128,12 +128,17 @@ class CFModel(CustomModel):
         resolved_conditions = _ConditionResolver(conditions, extended_parameters, self.Mappings).resolve_all()
 
         resources = dict_value.pop("Resources")
-        resolved_resources = {
-            key: resolve(value, extended_parameters, self.Mappings, resolved_conditions)
-            for key, value in resources.items()
-            if value.get("Condition") is None
-            or (value.get("Condition") is not None and resolved_conditions.get(value["Condition"], True))
-        }
+        resolved_resources = {}
+        for key, value in resources.items():
+            if value.get("Condition") is None or (
+                value.get("Condition") is not None and resolved_conditions.get(value["Condition"], True)
+            ):
+                resolved_resource = resolve(value, extended_parameters, self.Mappings, resolved_conditions)
+                if isinstance(resolved_resource, dict) and isinstance(value.get("Type"), str):
+                    # The Type of a resource is a literal, not a value to resolve: rewriting it (a string shaped like a
+                    # dynamic reference, or spelled like a boolean) could turn the resource into one of another class.
+                    resolved_resource["Type"] = value["Type"]
+                resolved_resources[key] = resolved_resource
         return CFModel(**dict_value, Conditions=resolved_conditions, Resources=resolved_resources)
 
     def expand_actions(self) -> "CFModel":
